@@ -13,6 +13,8 @@ import (
 	"os"
 
 	"gitlab.com/gomidi/midi/v2/internal/utils"
+	cc "gitlab.com/gomidi/midi/v2/internal/verifh/conccases"
+	cp "gitlab.com/gomidi/midi/v2/internal/verifh/concpairs"
 	"gitlab.com/gomidi/midi/v2/internal/verifh/engine"
 	"gitlab.com/gomidi/midi/v2/internal/verifh/faultio"
 	"gitlab.com/gomidi/midi/v2/internal/verifh/refsmf"
@@ -327,6 +329,9 @@ func writeFile() {
 func main() {
 	ctx = engine.Start("C03", "model_checking")
 	if ctx.ReplayPath != "" {
+		if cp.Replay(ctx, ctx.LoadReplay(), "smf-write", cc.SMFWrite()) {
+			ctx.Finish("replay")
+		}
 		replay()
 		return
 	}
@@ -346,6 +351,10 @@ func main() {
 			}
 		}
 	}
+	ctx.Jobs("concurrent", 1, func(int) {
+		cp.Litmus(ctx)
+		cp.Check(ctx, "smf-write", cc.SMFWrite())
+	})
 	ctx.Jobs("search", len(jobs), func(j int) { sp.RunPlanCfgShard(ctx, jobs[j].p, jobs[j].cfg, jobs[j].op, check) })
 	ctx.Jobs("value-sweeps", 8, func(j int) {
 		for i, c := range sp.ValueSweeps() {
